@@ -1,0 +1,20 @@
+//go:build verif
+
+package ast
+
+// Contracts for the deductive checker in /verif (comment-only file; adds no code).
+//
+// Literal aliases: a literal names a token only while exactly one token is that
+// literal; from the second definition on it stays ambiguous for good.
+//@ func Context.CreateAlias
+//@   requires !isnil(c) && !isnil(c.aliases) && !isnil(t)
+//@   ensures (old(has(c.aliases, name)) && !isnil(old(c.aliases[name]))) ==> c.aliases[name] == AmbiguousAlias
+//@   ensures !(old(has(c.aliases, name)) && !isnil(old(c.aliases[name]))) ==> c.aliases[name] == t
+//@   ensures has(c.aliases, name)
+//@   ensures forall k string :: k != name ==> (has(c.aliases, k) <==> old(has(c.aliases, k))) && c.aliases[k] == old(c.aliases[k])
+//@   modifies c.aliases[*]
+//
+//@ func Context.LookupAlias
+//@   requires !isnil(c)
+//@   ensures has(c.aliases, name) ==> result == c.aliases[name]
+//@   ensures !has(c.aliases, name) ==> isnil(result)
